@@ -168,7 +168,7 @@ def one_bilinear(chk, inst, cell, req, U, V, d, payload, lean_jobs):
             return
     # model: Lean dual-number model, member by member
     # (the un-memoised Lean model is slow on large trees: the driver gets the base catalogue only — batch rank <= 1, d <= 2)
-    if inst.lean and len(inst.batch) <= 1 and d <= 2 and inst.batch != (1,):
+    if inst.lean:
         lean_jobs.append(make_lean_job(inst, cell, P, U, V, d, names, impl, payload))
 
 
@@ -255,7 +255,7 @@ def denote_cases(chk, insts_by, only=None):
     that the theorems are stated against)."""
     lines, expect = [], []
     for (batch, mode), insts in insts_by.items():
-        if mode != "full" or batch not in ((), (2,)):
+        if mode not in ("full", "cpat"):
             continue
         for inst in insts:
             if not inst.lean or inst.node.kind == "brep":
@@ -406,6 +406,8 @@ def entry_cases(chk, insts_by, only=None):
             entries = list(ENTRY_GENERIC)
             if inst.psd:
                 entries += ENTRY_PSD
+            if mode == "cpat":
+                entries = ["matmul"] + (["solve", "inv_quad", "logdet"] if inst.psd else [])
             for entry in entries:
                 if entry in ("diagonal",) and n != m:
                     continue
@@ -632,11 +634,39 @@ def slots_cases(chk, insts_by):
             chk.corr_break(cell, f"model representation/gradient kinds `{o}` vs implementation `{want}`", {"cell": cell})
 
 
+def bcast_cases(chk):
+    """Lean `bcastSum` (gradient of a broadcast parameter, arbitrary pattern) vs torch's reduction of an expanded gradient
+    (`sum_to_size`, what autograd applies and what the hand-written reduction loops must equal)."""
+    lines, expect = [], []
+    for full in ((2, 3), (3, 2, 2), (4,)):
+        pats = [()] + [full[i:] for i in range(len(full))]
+        for mask in itertools.product((0, 1), repeat=len(full)):
+            pats.append(tuple(1 if z else f for f, z in zip(full, mask)))
+        for pat in sorted(set(pats), key=str):
+            g = ops.ri(chk.rng, full, -3, 3)
+            small = torch.arange(int(torch.Size(pat).numel()) if pat else 1).reshape(pat)
+            pi = small.expand(full).reshape(-1).tolist()
+            want = (g.sum_to_size(pat) if pat else g.sum()).reshape(-1)
+            lines.append(f"bsum {small.numel()} {','.join(map(str, pi))} {flat(g)}")
+            expect.append((f"C07/bcast/full={full}/pattern={pat}", want))
+            chk.case(f"C07/bcast/full={full}/pattern={pat}|{g.flatten()[:4].tolist()}", nontrivial=True, sample=False)
+    outs = chk.run_driver("C07", lines)
+    if outs is None:
+        return
+    for o, (cell, want) in zip(outs, expect):
+        got = torch.tensor([float(Fraction(x)) for x in o.split(",")], dtype=torch.float64) if not o.startswith("bad") else None
+        if got is not None and got.shape == want.shape and torch.equal(got, want):
+            chk.traces_validated += 1
+        else:
+            chk.corr_break(cell, f"model bcastSum `{o[:80]}` vs torch sum_to_size {want.tolist()[:8]}", {"cell": cell})
+
+
 # ---------------------------------------------------------------------------------------------- run
 def gen_instances(chk):
     quick = chk.tier == "quick"
     res = {}
     combos = [((), "full"), ((2,), "full"), ((2,), "bcast")] if quick else [((), "full"), ((2,), "full"), ((2,), "bcast"), ((2, 3), "bcast"), ((1,), "full")]
+    res[((2, 3), "cpat")] = ops.instances(chk.rng, (2, 3), 3, mode="full", only_cpat=True)  # ConstantMul broadcast patterns
     for ci, (batch, mode) in enumerate(combos):
         res[(batch, mode)] = ops.instances(chk.rng, batch, 3 if (quick or ci < 3) else chk.rng.choice([3, 4]), mode=mode)
     return res
@@ -663,6 +693,8 @@ def run(chk, only=None):
         denote_cases(chk, insts_by, only)
     if part in (None, "slots"):
         slots_cases(chk, insts_by)
+    if part in (None, "bcast"):
+        bcast_cases(chk)
     if part in (None, "entry"):
         entry_cases(chk, insts_by, only)
 
